@@ -7,120 +7,16 @@ Open Scope N_scope.
 
 Module EP := EngineProofs.
 
-Definition mkeys_ok (m : memtable) : Prop := forall e, In e (mt_entries m) -> mk e <> [].
+Definition eng_ok2 (e : st) : Prop := eng_ok e.
 
-Record eng_ok2 (e : st) : Prop := mkE2 {
-  e2_ok : eng_ok e;
-  e2_act : mkeys_ok (active e);
-  e2_pend : Forall mkeys_ok (pending e);
-  e2_wal : forall f en, In f (wal_files e) -> In en f -> w_key en <> []
-}.
-
-(* ---------- programs: keys are not empty ---------- *)
-
-Definition bops_ok (ops : list bop) : Prop := forall o, In o ops -> fst o <> [].
-
-Definition op_ok (o : cop) : Prop :=
-  match o with
-  | CPut k _ => k <> []
-  | CDel k => k <> []
-  | CBatch ops => bops_ok ops
-  | CCommit ops => bops_ok ops
-  | _ => True
-  end.
-
-(* ---------- writes ---------- *)
-
-Lemma mt_add_keys : forall m e, mkeys_ok m -> mk e <> [] -> mkeys_ok (mt_add m e).
-Proof.
-  unfold mkeys_ok, mt_add. intros. destruct (mt_imm m); auto. simpl in H1.
-  apply MP.insert_in in H1. destruct H1 as [->|H1]; auto.
-Qed.
-
-Lemma pool_add_ok2 : forall e m, eng_ok2 e -> mk m <> [] -> eng_ok2 (pool_add e m).
-Proof.
-  intros e m [A B C D] Hm. constructor; simpl; auto. apply pool_add_ok; auto. apply mt_add_keys; auto.
-Qed.
-
-Lemma maybe_schedule_ok2 : forall e, eng_ok2 e -> eng_ok2 (maybe_schedule e).
-Proof.
-  intros e [A B C D]. constructor; auto. apply maybe_schedule_ok; auto.
-  - unfold maybe_schedule. destruct (flush_pending e); simpl; auto. intros x [].
-  - unfold maybe_schedule. destruct (flush_pending e); simpl; auto. apply Forall_app. split; auto.
-  - unfold maybe_schedule. destruct (flush_pending e); simpl; auto.
-Qed.
-
-Lemma set_last_ok2 : forall e n, eng_ok2 e -> eng_ok2 (set_last e n).
-Proof. intros e n [A B C D]. constructor; auto. apply set_last_ok; auto. Qed.
-
-Lemma log_append_in : forall files es f en, In f (log_append files es) -> In en f ->
-  In en es \/ exists f', In f' files /\ In en f'.
-Proof.
-  unfold log_append. intros files es f en Hf He. destruct (rev files) as [|l r] eqn:E.
-  - destruct Hf as [<-|[]]. auto.
-  - assert (files = rev r ++ [l]). { rewrite <- (rev_involutive files), E. auto. }
-    apply in_app_iff in Hf. destruct Hf as [Hf|[<-|[]]].
-    + right. exists f. split; auto. rewrite H. apply in_or_app. auto.
-    + apply in_app_iff in He. destruct He; auto. right. exists l. split; auto. rewrite H. apply in_or_app. simpl. auto.
-Qed.
-
-Lemma upd_wal_ok2 : forall e n es, eng_ok2 e -> (forall en, In en es -> w_key en <> []) ->
-  eng_ok2 (upd_wal e n (log_append (wal_files e) es)).
-Proof.
-  intros e n es [A B C D] H. constructor; auto. apply upd_wal_ok; auto.
-  simpl. intros f en Hf He. destruct (log_append_in _ _ _ _ Hf He) as [X|(f' & X & Y)]; eauto.
-Qed.
-
-Lemma fold_add_ok2 : forall (ops : list bop) q s, eng_ok2 s -> bops_ok ops ->
-  eng_ok2 (fold_left (fun a o => set_last (pool_add a (bop_mentry q o)) q) ops s).
-Proof.
-  induction ops; simpl; auto. intros. apply IHops.
-  - apply set_last_ok2, pool_add_ok2; auto. rewrite EP.mk_bop_mentry. apply H0. simpl; auto.
-  - intros o Ho. apply H0. simpl; auto.
-Qed.
-
-Lemma bop_entry_key : forall q o, w_key (bop_entry q o) = fst o.
-Proof. intros q [k [v|]]; reflexivity. Qed.
-
-Lemma apply_batch_ok2 : forall e ops, eng_ok2 e -> bops_ok ops -> eng_ok2 (fst (apply_batch e ops)).
-Proof.
-  unfold apply_batch. intros. destruct ops as [|b ops']; auto.
-  destruct (MaxSeq <=? wal_next e); auto. cbn [fst].
-  apply maybe_schedule_ok2, fold_add_ok2; auto. apply upd_wal_ok2; auto.
-  intros en Hen. apply in_map_iff in Hen. destruct Hen as (o & <- & Ho). rewrite bop_entry_key. auto.
-Qed.
-
-Lemma put_ok2 : forall e k v, eng_ok2 e -> k <> [] -> eng_ok2 (fst (put e k v)).
-Proof.
-  intros. rewrite EP.put_as_batch. apply apply_batch_ok2; auto. intros o [<-|[]]. auto.
-Qed.
-Lemma del_ok2 : forall e k, eng_ok2 e -> k <> [] -> eng_ok2 (fst (del e k)).
-Proof.
-  intros. rewrite EP.del_as_batch. apply apply_batch_ok2; auto. intros o [<-|[]]. auto.
-Qed.
-
-Lemma buf_set_keys : forall o l x, In x (buf_set o l) -> x = o \/ In x l.
-Proof.
-  induction l; simpl; intros. intuition.
-  destruct (bcmp (fst a) (fst o)); simpl in *.
-  - destruct H; auto.
-  - destruct H; auto. apply IHl in H. tauto.
-  - destruct H as [H|[H|H]]; auto.
-Qed.
-
-Lemma buffer_ops_ok : forall ops, bops_ok ops -> bops_ok (buffer_ops ops).
-Proof.
-  unfold buffer_ops. intros ops H.
-  assert (G : forall l acc, bops_ok l -> bops_ok acc -> bops_ok (fold_left (fun b o => buf_set o b) l acc)).
-  { induction l; simpl; intros; auto. apply IHl. intros o Ho. apply H0; simpl; auto.
-    intros x Hx. apply buf_set_keys in Hx. destruct Hx as [->|Hx]; auto. apply H0; simpl; auto. }
-  apply G; auto. intros o [].
-Qed.
-
-Lemma tx_commit_ok2 : forall e ops, eng_ok2 e -> bops_ok ops -> eng_ok2 (fst (tx_commit e ops)).
-Proof.
-  intros. rewrite EP.tx_commit_as_batch. apply apply_batch_ok2; auto. apply buffer_ops_ok; auto.
-Qed.
+Lemma put_ok2 : forall e k v, eng_ok2 e -> eng_ok2 (fst (put e k v)).
+Proof. intros. apply put_ok; auto. Qed.
+Lemma del_ok2 : forall e k, eng_ok2 e -> eng_ok2 (fst (del e k)).
+Proof. intros. apply del_ok; auto. Qed.
+Lemma apply_batch_ok2 : forall e ops, eng_ok2 e -> eng_ok2 (fst (apply_batch e ops)).
+Proof. intros. apply apply_batch_ok; auto. Qed.
+Lemma tx_commit_ok2 : forall e ops, eng_ok2 e -> eng_ok2 (fst (tx_commit e ops)).
+Proof. intros. apply tx_commit_ok; auto. Qed.
 
 (* ---------- flush: the files it adds ---------- *)
 
@@ -128,7 +24,6 @@ Inductive fresh : N -> list sst -> N -> Prop :=
 | fresh_nil : forall c, fresh c [] c
 | fresh_cons : forall c t r c',
     s_level t = 0 -> s_ts t = c -> asc (s_entries t) -> s_entries t <> [] ->
-    (forall e, In e (s_entries t) -> sk e <> []) ->
     fresh (c + 1) r c' -> fresh c (t :: r) c'.
 
 Lemma fresh_app : forall a l b l' c, fresh a l b -> fresh b l' c -> fresh a (l ++ l') c.
@@ -137,45 +32,34 @@ Proof. induction 1; simpl; intros; auto. constructor; auto. Qed.
 Lemma fresh_le : forall a l b, fresh a l b -> b = a + N.of_nat (length l).
 Proof. induction 1; simpl. lia. rewrite IHfresh. lia. Qed.
 
-Lemma collect_keys : forall m, mt_ok m -> mkeys_ok m ->
-  forall x, In x (collect (mt_iter_entries m)) -> sk x <> [].
-Proof.
-  intros m Hs Hk x Hx.
-  destruct (EP.collect_spec (mt_iter_entries m)) as (_ & F & _).
-  { apply filter_sorted. exact Hs. }
-  destruct (F x Hx) as (e & He & ->). rewrite sk_to_sentry. apply Hk.
-  unfold mt_iter_entries in He. apply filter_In in He. tauto.
-Qed.
-
 Record same_mem (e e' : st) : Prop := mkSM {
   sm_act : active e' = active e; sm_pend : pending e' = pending e; sm_imms : imms e' = imms e;
   sm_wal : wal_files e' = wal_files e; sm_cfg : cfg e' = cfg e
 }.
 
-Lemma flush_table_fresh : forall e m, mt_ok m -> mkeys_ok m ->
+Lemma flush_table_fresh : forall e m, mt_ok m ->
   exists news, ssts (flush_table e m) = ssts e ++ news /\
                fresh (clock e) news (clock (flush_table e m)) /\ same_mem e (flush_table e m).
 Proof.
-  intros e m Hs Hk. unfold flush_table. destruct (mt_size m =? 0).
+  intros e m Hs. unfold flush_table. destruct (mt_size m =? 0).
   { exists []. rewrite app_nil_r. repeat split; auto. constructor. }
   destruct (collect (mt_iter_entries m)) as [|x r] eqn:E.
   { exists []. rewrite app_nil_r. repeat split; auto. constructor. }
   exists [mkSst 0 (next_file e) (clock e) (x :: r)]. simpl. repeat split; auto.
-  assert (K := collect_keys m Hs Hk). rewrite E in K.
   assert (A : asc (x :: r)). { rewrite <- E. apply collect_asc. apply filter_sorted. exact Hs. }
   constructor; simpl; auto; try discriminate. constructor.
 Qed.
 
-Lemma fold_flush_fresh : forall ps e, Forall mt_ok ps -> Forall mkeys_ok ps ->
+Lemma fold_flush_fresh : forall ps e, Forall mt_ok ps ->
   exists news, ssts (fold_left flush_table ps e) = ssts e ++ news /\
                fresh (clock e) news (clock (fold_left flush_table ps e)) /\
                same_mem e (fold_left flush_table ps e).
 Proof.
   induction ps; simpl; intros.
   - exists []. rewrite app_nil_r. repeat split; auto. constructor.
-  - inversion H; inversion H0; subst.
-    destruct (flush_table_fresh e a H3 H7) as (n1 & A1 & B1 & C1).
-    destruct (IHps (flush_table e a) H4 H8) as (n2 & A2 & B2 & C2).
+  - inversion H; subst.
+    destruct (flush_table_fresh e a H2) as (n1 & A1 & B1 & C1).
+    destruct (IHps (flush_table e a) H3) as (n2 & A2 & B2 & C2).
     exists (n1 ++ n2). rewrite A2, A1, app_assoc. split; auto. split. eapply fresh_app; eauto.
     destruct C1, C2. constructor; congruence.
 Qed.
@@ -184,57 +68,14 @@ Lemma flush_fresh : forall e, eng_ok2 e ->
   exists news, ssts (flush e) = ssts e ++ news /\ fresh (clock e) news (clock (flush e)) /\
                eng_ok2 (flush e).
 Proof.
-  intros e [A B C D]. pose proof (flush_ok e A) as FO. unfold flush in *. destruct (pending e) eqn:P.
+  intros e A. pose proof (flush_ok e A) as FO. unfold eng_ok2. unfold flush in *. destruct (pending e) eqn:P.
   - destruct (0 <? mt_size (active e)).
-    + destruct (flush_table_fresh (rotate e) (active e)) as (n & X & Y & Z); auto. apply (eo_active _ A).
-      exists n. split; auto. split; auto. destruct Z. constructor; auto.
-      * rewrite sm_act0. auto.
-      * rewrite sm_pend0. simpl. rewrite P. constructor.
-      * rewrite sm_wal0. simpl. intros f en Hf He. apply in_app_iff in Hf. destruct Hf as [Hf|[<-|[]]]; [eauto|destruct He].
-    + exists []. rewrite app_nil_r. split; auto. split. constructor. constructor; auto. rewrite P. auto.
+    + destruct (flush_table_fresh (rotate e) (active e)) as (n & X & Y & Z). apply (eo_active _ A).
+      exists n. auto.
+    + exists []. rewrite app_nil_r. split; auto. split. constructor. auto.
   - destruct (fold_flush_fresh (m :: l) (rotate (clear_pending e))) as (n & X & Y & Z).
-    { rewrite <- P. apply (eo_pending _ A). } { exact C. }
-    exists n. split; auto. split; auto. destruct Z. constructor; auto.
-    + rewrite sm_act0. auto.
-    + rewrite sm_pend0. simpl. constructor.
-    + rewrite sm_wal0. simpl. intros f en Hf He. apply in_app_iff in Hf. destruct Hf as [Hf|[<-|[]]]; [eauto|destruct He].
-Qed.
-
-(* ---------- reopen ---------- *)
-
-Lemma recover_tables_keys : forall c es tables maxseq r q,
-  Forall mkeys_ok tables -> (forall en, In en es -> w_key en <> []) ->
-  recover_tables c es tables maxseq = Some (r, q) -> Forall mkeys_ok r.
-Proof.
-  induction es; simpl; intros. inversion H1; subst. auto.
-  destruct tables as [|cur older]; try discriminate. inversion H; subst.
-  assert (Hm : forall m, wentry_mentry a = Some m -> mk m <> []).
-  { unfold wentry_mentry. intros m E. destruct (w_op a =? OpPut). inversion E; subst. simpl. apply H0; auto.
-    destruct (w_op a =? OpDel); inversion E; subst. simpl. apply H0; auto. }
-  destruct (c_memsize c <=? mt_size cur).
-  - destruct (c_maxmem c <=? _); try discriminate.
-    eapply IHes in H1; eauto. constructor; [|constructor; auto].
-    destruct (wentry_mentry a) eqn:E. apply mt_add_keys; auto. intros x []. intros x [].
-  - eapply IHes in H1; eauto. constructor; auto. destruct (wentry_mentry a) eqn:E; auto. apply mt_add_keys; auto.
-Qed.
-
-Lemma reopen_ok2 : forall e, Forall file_ok (ssts e) ->
-  (forall f en, In f (wal_files e) -> In en f -> w_key en <> []) -> eng_ok2 (reopen e).
-Proof.
-  intros e Hs Hw. pose proof (reopen_ok e Hs) as RO. unfold reopen in *.
-  set (files := match wal_files e with [] => [[]] | f => f end) in *.
-  assert (Hw' : forall en, In en (concat files) -> w_key en <> []).
-  { intros en Hen. apply in_concat in Hen. destruct Hen as (f & Hf & He).
-    unfold files in Hf. destruct (wal_files e) eqn:E. destruct Hf as [<-|[]]. destruct He.
-    eapply Hw; eauto. }
-  destruct (recover_tables _ _ _ _) as [[tbls maxseq]|] eqn:R.
-  - apply recover_tables_keys in R; auto. 2: { constructor. intros x []. constructor. }
-    constructor; simpl; auto.
-    + destruct tbls. intros x []. inversion R; auto.
-    + rewrite Forall_forall in *. intros m Hm. apply in_map_iff in Hm. destruct Hm as (m0 & <- & Hm0).
-      unfold mkeys_ok. simpl. apply R. apply in_rev in Hm0. destruct tbls; simpl in *. tauto. auto.
-    + intros f en Hf He. apply Hw'. apply in_concat. eauto.
-  - constructor; simpl; auto. intros x []. intros f en [<-|[]] [].
+    { rewrite <- P. apply (eo_pending _ A). }
+    exists n. auto.
 Qed.
 
 (* ---------- the database ---------- *)
@@ -256,14 +97,13 @@ Qed.
 
 Lemma fresh_props : forall a l b, fresh a l b ->
   NoDup (map s_ts l) /\
-  forall t, In t l -> s_level t = 0 /\ a <= s_ts t < b /\ asc (s_entries t) /\ s_entries t <> [] /\
-                       (forall e, In e (s_entries t) -> sk e <> []).
+  forall t, In t l -> s_level t = 0 /\ a <= s_ts t < b /\ asc (s_entries t) /\ s_entries t <> [].
 Proof.
   induction 1; simpl. split. constructor. tauto.
-  destruct IHfresh as [A B]. pose proof (fresh_le _ _ _ H4). split.
+  destruct IHfresh as [A B]. pose proof (fresh_le _ _ _ H3). split.
   - constructor; auto. intro C. apply in_map_iff in C. destruct C as (x & E & Hx).
     destruct (B x Hx) as (_ & R & _). lia.
-  - intros x [<-|Hx]. repeat split; auto; lia. destruct (B x Hx) as (P1 & P2 & P3). repeat split; auto; try tauto; lia.
+  - intros x [<-|Hx]. repeat split; auto; lia. destruct (B x Hx) as (P1 & P2 & P3 & P4). repeat split; auto; lia.
 Qed.
 
 Lemma wf_add_fresh : forall dir c news c' i z, WF dir c -> fresh c news c' ->
@@ -272,10 +112,9 @@ Proof.
   intros dir c news c' i z W F. destruct (fresh_props _ _ _ F) as [ND FP].
   pose proof (fresh_le _ _ _ F) as Hc.
   assert (Hn : forall f, In f (with_sizes i z news) ->
-     d_level f = 0 /\ c <= dts f < c' /\ asc (d_entries f) /\ d_entries f <> [] /\
-     (forall e, In e (d_entries f) -> sk e <> []) /\ 1 <= d_size f).
+     d_level f = 0 /\ c <= dts f < c' /\ asc (d_entries f) /\ d_entries f <> [] /\ 1 <= d_size f).
   { intros f Hf. apply with_sizes_in in Hf. destruct Hf as [Hf Hs].
-    destruct (FP _ Hf) as (A & B & C & D & E). unfold d_level, dts, d_entries. repeat split; auto; tauto. }
+    destruct (FP _ Hf) as (A & B & C & D). unfold d_level, dts, d_entries. repeat split; auto; tauto. }
   constructor.
   - intros f Hf. apply in_app_iff in Hf. destruct Hf. apply (wf_asc _ _ W); auto. apply Hn; auto.
   - rewrite map_app. apply NoDup_app_intro. apply (wf_ts _ _ W).
@@ -288,8 +127,6 @@ Proof.
     destruct Hf as [Hf|Hf]; [|destruct (Hn f Hf) as (Z & _); lia].
     destruct Hg as [Hg|Hg]; [|destruct (Hn g Hg) as (Z & _); lia].
     apply (wf_disj _ _ W); auto.
-  - intros f e Hf He. apply in_app_iff in Hf. destruct Hf. eapply (wf_keys _ _ W); eauto.
-    destruct (Hn f H) as (_ & _ & _ & _ & K & _). auto.
   - intros f Hf. apply in_app_iff in Hf. destruct Hf. apply (wf_nonempty _ _ W); auto. apply Hn; auto.
   - intros f Hf. apply in_app_iff in Hf. destruct Hf. apply (wf_size _ _ W); auto. apply Hn; auto.
 Qed.
@@ -305,7 +142,7 @@ Proof.
 Qed.
 
 Lemma set_clock_ok2 : forall e c, eng_ok2 e -> eng_ok2 (set_clock e c).
-Proof. intros e c [[A1 A2 A3] B C D]. constructor; auto. constructor; auto. Qed.
+Proof. intros e c [A1 A2 A3]. constructor; auto. Qed.
 
 Lemma disk_files_ok : forall s, cst_ok2 s -> Forall file_ok (map d_sst (dsort (disk s))).
 Proof.
@@ -313,36 +150,28 @@ Proof.
   destruct Ht as (f & <- & Hf). apply (proj1 (dsort_in _ _)) in Hf. apply (wf_asc _ _ B f Hf).
 Qed.
 
-Lemma set_ssts_ok2 : forall e l, eng_ok2 e -> Forall file_ok l -> eng_ok2 (set_ssts e l).
-Proof. intros e l [[A1 A2 A3] B C D] H. constructor; auto. constructor; auto. Qed.
-
-Lemma cstep_ok2 : forall o s, op_ok o -> cst_ok2 s -> cst_ok2 (cstep s o).
+Lemma clock_apply_batch : forall e ops, clock (fst (apply_batch e ops)) = clock e.
 Proof.
-  destruct o; simpl; intros s0 Ho S; auto.
-  - destruct S as [A B C]. unfold cput. pose proof (put_ok2 (eng s0) k v A Ho).
-    assert (clock (fst (put (eng s0) k v)) = clock (eng s0)).
-    { rewrite EP.put_as_batch. unfold apply_batch. destruct (MaxSeq <=? _); auto. simpl.
-      unfold maybe_schedule. destruct (flush_pending _); reflexivity. }
+  intros. unfold apply_batch. destruct ops; auto. destruct (MaxSeq <=? _); auto. cbn [fst].
+  assert (G : forall (l : list bop) q e, clock (fold_left (fun a o => set_last (pool_add a (bop_mentry q o)) q) l e) = clock e).
+  { induction l; simpl; intros; auto. rewrite IHl. reflexivity. }
+  unfold maybe_schedule. destruct (flush_pending _); simpl; rewrite G; reflexivity.
+Qed.
+
+Lemma cstep_ok2 : forall o s, cst_ok2 s -> cst_ok2 (cstep s o).
+Proof.
+  destruct o; simpl; intros s0 S; auto.
+  - destruct S as [A B C]. unfold cput. pose proof (put_ok2 (eng s0) k v A).
+    assert (clock (fst (put (eng s0) k v)) = clock (eng s0)) by (rewrite EP.put_as_batch; apply clock_apply_batch).
     destruct (put (eng s0) k v). constructor; simpl in *; auto. rewrite H0. auto.
-  - destruct S as [A B C]. unfold cdel. pose proof (del_ok2 (eng s0) k A Ho).
-    assert (clock (fst (del (eng s0) k)) = clock (eng s0)).
-    { rewrite EP.del_as_batch. unfold apply_batch. destruct (MaxSeq <=? _); auto. simpl.
-      unfold maybe_schedule. destruct (flush_pending _); reflexivity. }
+  - destruct S as [A B C]. unfold cdel. pose proof (del_ok2 (eng s0) k A).
+    assert (clock (fst (del (eng s0) k)) = clock (eng s0)) by (rewrite EP.del_as_batch; apply clock_apply_batch).
     destruct (del (eng s0) k). constructor; simpl in *; auto. rewrite H0. auto.
-  - destruct S as [A B C]. unfold cbatch. pose proof (apply_batch_ok2 (eng s0) ops A Ho).
-    assert (clock (fst (apply_batch (eng s0) ops)) = clock (eng s0)).
-    { unfold apply_batch. destruct ops; auto. destruct (MaxSeq <=? _); auto. cbn [fst].
-      assert (G : forall (l : list bop) q e, clock (fold_left (fun a o => set_last (pool_add a (bop_mentry q o)) q) l e) = clock e).
-      { induction l; simpl; intros; auto. rewrite IHl. reflexivity. }
-      unfold maybe_schedule. destruct (flush_pending _); simpl; rewrite G; reflexivity. }
+  - destruct S as [A B C]. unfold cbatch. pose proof (apply_batch_ok2 (eng s0) ops A).
+    pose proof (clock_apply_batch (eng s0) ops).
     destruct (apply_batch (eng s0) ops). constructor; simpl in *; auto. rewrite H0. auto.
-  - destruct S as [A B C]. unfold ccommit. pose proof (tx_commit_ok2 (eng s0) ops A Ho).
-    assert (clock (fst (tx_commit (eng s0) ops)) = clock (eng s0)).
-    { unfold tx_commit. destruct (buffer_ops ops) eqn:E; auto.
-      unfold apply_batch. destruct (MaxSeq <=? _); auto. cbn [fst].
-      assert (G : forall (l : list bop) q e, clock (fold_left (fun a o => set_last (pool_add a (bop_mentry q o)) q) l e) = clock e).
-      { induction l0; simpl; intros; auto. rewrite IHl0. reflexivity. }
-      unfold maybe_schedule. destruct (flush_pending _); simpl; rewrite G; reflexivity. }
+  - destruct S as [A B C]. unfold ccommit. pose proof (tx_commit_ok2 (eng s0) ops A).
+    assert (clock (fst (tx_commit (eng s0) ops)) = clock (eng s0)) by (rewrite EP.tx_commit_as_batch; apply clock_apply_batch).
     destruct (tx_commit (eng s0) ops). constructor; simpl in *; auto. rewrite H0. auto.
   - apply cflush_ok2; auto.
   - unfold cfull. pose proof (cflush_ok2 s0 sizes S) as S1.
@@ -359,14 +188,8 @@ Proof.
     right. eauto.
   - pose proof (disk_files_ok s0 S) as DF. destruct S as [A B C]. unfold creopen.
     set (e1 := if retire then upd_wal (eng s0) (wal_next (eng s0)) (skipn (retirable s0) (wal_files (eng s0))) else eng s0).
-    assert (Hw : forall f en, In f (wal_files e1) -> In en f -> w_key en <> []).
-    { unfold e1. destruct retire; simpl; intros f en Hf He.
-      - apply (e2_wal _ A f en); auto. rewrite <- (firstn_skipn (retirable s0)). apply in_or_app. auto.
-      - apply (e2_wal _ A f en); auto. }
-    assert (R : eng_ok2 (reopen (set_ssts e1 (map d_sst (dsort (disk s0)))))).
-    { apply reopen_ok2; simpl; auto. }
     constructor; simpl; auto.
-    + apply set_ssts_ok2; auto. rewrite Forall_forall in *. intros t Ht. apply (proj1 (age_sort_in _ _)) in Ht. auto.
+    + apply reopen_ok. simpl. auto.
     + assert (clock (reopen (set_ssts e1 (map d_sst (dsort (disk s0))))) = clock (eng s0)).
       { unfold reopen. destruct (recover_tables _ _ _ _) as [[? ?]|]; simpl; unfold e1; destruct retire; reflexivity. }
       rewrite H. auto.
@@ -374,16 +197,12 @@ Qed.
 
 Definition cfg_ok (k : ccfg) : Prop := 1 <= cc_sstmax k.
 
-Theorem reachable_wf : forall c k ops, cfg_ok k -> Forall op_ok ops -> cst_ok2 (crun c k ops).
+Theorem reachable_wf : forall c k ops, cfg_ok k -> cst_ok2 (crun c k ops).
 Proof.
-  intros c k ops Hk Ho. unfold crun.
+  intros c k ops Hk. unfold crun.
   assert (cst_ok2 (cinit c k)).
   { constructor; simpl; auto.
-    - constructor; simpl.
-      + constructor; simpl; auto. apply mt_empty_ok.
-      + intros x [].
-      + constructor.
-      + intros f en [<-|[]] [].
+    - constructor; simpl; auto. apply mt_empty_ok.
     - constructor; simpl; try tauto. constructor. }
-  revert H. generalize (cinit c k). induction Ho; simpl; auto. intros. apply IHHo. apply cstep_ok2; auto.
+  revert H. generalize (cinit c k). induction ops; simpl; auto. intros. apply IHops. apply cstep_ok2; auto.
 Qed.
